@@ -518,7 +518,8 @@ func matchKnown(fs []KnownFinding, prop, obl string) int {
 		if prop != "" && prop != "ALL" && f.Property != prop && f.Property != "*" {
 			continue
 		}
-		if f.Obligation == obl || baseName(obl) == f.Obligation || (strings.HasSuffix(f.Obligation, "*") && strings.HasPrefix(obl, strings.TrimSuffix(f.Obligation, "*"))) {
+		// exact obligation name (call site / clause ordinal included): a different violation is still reported
+		if f.Obligation == obl {
 			return i
 		}
 	}
